@@ -494,8 +494,9 @@ def find_returns(toks, lo, hi):
 
 def find_calls(toks, lo, hi, name):
     res = []
+    names = set(name.split("|"))        # alternatives: `a|b` matches a call to either
     for i in range(lo, hi):
-        if toks[i].kind == "ident" and toks[i].text == name:
+        if toks[i].kind == "ident" and toks[i].text in names:
             j = next_sig(toks, i + 1)
             if toks[j].text == "(" or (toks[j].text == ":" and toks[next_sig(toks, j + 1)].text == ":"):
                 res.append(i)
